@@ -57,8 +57,11 @@ def native(t, env):
         for f in t[1:]:
             v = v[f]
         return v
-    if k == "list":      # ["list", i]
-        return env["list"][t[1]]
+    if k == "list":      # ["list", i, j, ...]  item path of any length
+        v = env["list"]
+        for f in t[1:]:
+            v = v[f]
+        return v
     if k == "fn":
         return FUNCS[t[1]](native(t[2], env))
     if k == "un":
@@ -104,7 +107,10 @@ def build(t, P):
             e = getattr(e, f)
         return e, True
     if k == "list":
-        return P["list_"][t[1]], True
+        e = P["list_"]
+        for f in t[1:]:
+            e = e[f]
+        return e, True
     if k == "fn":
         a, ae = build(t[2], P)
         if not ae:
@@ -261,7 +267,7 @@ def check_tree(ctx, t, ctxd, P, mode_lib=False, report=True):
     root = t[0]
     family = "this"
     for s in subtrees(t):
-        if s[0] == "obj":
+        if s[0] == "obj" and family != "list":
             family = "obj"
         if s[0] == "list":
             family = "list"
@@ -488,6 +494,20 @@ def run(ctx):
             fam.append((["un", u, ["obj"]], "obj"))
         for i in (-1, 0, 1, 2):
             fam.append((["list", i], "list"))
+        # list_ below operators and helpers (the arguments a predicate is called with must reach the placeholder)
+        for op in BINOPS:
+            fam.append((["bin", op, ["list", -1], ["lit", 2]], "list"))
+            fam.append((["bin", op, ["lit", 3], ["list", 0]], "list"))
+            fam.append((["bin", op, ["list", 1], ["obj"]], "list"))
+        for fn in ("len", "sum", "min", "max"):
+            fam.append((["fn", fn, ["list"]], "listall"))
+            fam.append((["bin", "-", ["fn", fn, ["list"]], ["obj"]], "listall"))
+        # item paths of depth two and three below list_ (and below this / obj_), alone and inside operators
+        for pth in ([-1, "x"], [0, "x"], [1, 0], [-1, "y", 1], [0, "y", -1]):
+            fam.append((["list"] + pth, "listdeep"))
+            fam.append((["bin", "+", ["list"] + pth, ["lit", 1]], "listdeep"))
+            fam.append((["bin", "==", ["lit", 2], ["list"] + pth], "listdeep"))
+            fam.append((["un", "-", ["list"] + pth], "listdeep"))
         fam.append((["fn", "len", ["this", "s"]], "s"))
         fam.append((["bin", "+", ["this", "s"], ["lit", "s"]], "s"))
         fam.append((["bin", "%", ["lit", "%s!"], ["this", "s"]], "s"))
@@ -504,6 +524,10 @@ def run(ctx):
                 cs = [{"obj": 0, "list": [x, y, z], "a": 1, "b": 1, "c": 1} for x in (-1, 0, 2) for y in (0, 3) for z in (1, -2)]
             elif kind == "items":
                 cs = [{"items": it, "a": 1, "b": 2, "c": 3} for it in ([1], [1, 2, 3], [-2, 5], [0, 0, 0, 7], [3, 1, 2])]
+            elif kind == "listall":
+                cs = [{"obj": o, "list": l, "a": 1, "b": 1, "c": 1} for o in (0, 2) for l in ([1], [3, -1, 2], [0, 0, 5, 7])]
+            elif kind == "listdeep":
+                cs = [{"obj": 0, "list": [tag({"x": a, "y": [a, b, 7]}), [b, a], tag({"x": b, "y": [1, 2, a]})], "a": 1, "b": 1, "c": 1} for a in (-3, 0, 2) for b in (1, 5)]
             elif kind == "mix":
                 cs = [{"items": it, "a": a, "b": b, "c": 3} for it in ([1], [1, 2, 3], [-2, 5], [3, 1, 2]) for a in (-7, 0, 1, 5) for b in (2, -3)]
             elif kind == "absa":
